@@ -218,6 +218,85 @@ def main():
             if not (r.get("kind") == "CXXOperatorCallExpr" and any(q.get("kind") == "DeclRefExpr" and q["referencedDecl"].get("name") == "operator*" for q in walk(r["inner"][0])) and is_member_p(r["inner"][1], of_this=True)): raise Unsupported("poly_obj does not return *_p")
             return "Definition gen_pp_write {V : Type} (s : st V) (h : nat) (f : V -> V) : st V := sp_mutate V (gen_pp_detach s h) h f."
         emit("gen_pp_write", "poly_type& poly_obj() { detach(); return *_p; }  followed by a mutation f of the payload through the returned reference (every non-const member of poly_p goes through poly_obj())", poly_obj)
+        def forwarders():
+            """every other member of the class template is a one-statement forwarder: the same-named operation of the payload reached through
+            poly_obj() (static members: of poly_type), with the member's own parameters in order"""
+            src = open(os.path.join(REPO, "include/nfl/poly_p.hpp"), "rb").read()
+            def text(n):
+                r = n.get("range", {}); b = r.get("begin", {}); e = r.get("end", {})
+                b = b.get("expansionLoc", b); e = e.get("expansionLoc", e)
+                if "offset" not in b or "offset" not in e: return ""
+                return src[b["offset"]: e["offset"] + e.get("tokLen", 0)].decode(errors="replace")
+            tobjs = c2c.clang_ast("#include <nfl.hpp>\n", "poly_p", [])
+            rec = None
+            for o in tobjs:
+                for n in walk(o):
+                    if n.get("kind") == "ClassTemplateDecl" and n.get("name") == "poly_p":
+                        rs = [c for c in n.get("inner", []) if c.get("kind") == "CXXRecordDecl"]
+                        if rs: rec = rs[0]
+            if rec is None: raise Unsupported("class template poly_p not found")
+            def methods(x):
+                for c in x.get("inner", []):
+                    if c.get("kind") in ("CXXMethodDecl", "CXXConversionDecl"): yield c
+                    if c.get("kind") == "FunctionTemplateDecl":
+                        for q in c.get("inner", []):
+                            if q.get("kind") == "CXXMethodDecl": yield q
+            def is_pobj(e, of=None):
+                """poly_obj() on *this (of=None) or on parameter `of`"""
+                e = strip(e)
+                if e.get("kind") != "CallExpr" or len(e.get("inner", [])) != 1: return False
+                c = e["inner"][0]
+                if of is None: return c.get("kind") in ("UnresolvedMemberExpr", "MemberExpr") and (c.get("name") == "poly_obj" or text(c) == "poly_obj")
+                return c.get("kind") in ("CXXDependentScopeMemberExpr", "MemberExpr") and (c.get("member") == "poly_obj" or c.get("name") == "poly_obj") and strip(c["inner"][0]).get("referencedDecl", {}).get("id") == of
+            def is_param(e, pid):
+                e = strip(e)
+                if e.get("kind") == "CallExpr" and any(q.get("kind") in ("DeclRefExpr", "UnresolvedLookupExpr") and (q.get("referencedDecl", {}).get("name") == "forward" or q.get("name") == "forward") for q in walk(e["inner"][0])) and len(e["inner"]) == 2: e = strip(e["inner"][1])
+                return e.get("kind") == "DeclRefExpr" and e.get("referencedDecl", {}).get("id") == pid
+            names = []
+            special = ("poly_obj", "detach", "make_pointer", "operator=")
+            for m in methods(rec):
+                nm = m.get("name"); b = body_of(m)
+                if nm in special or b is None: continue
+                ps = [q for q in m.get("inner", []) if q.get("kind") == "ParmVarDecl"]
+                sig = "%s %s" % (nm, m.get("type", {}).get("qualType", ""))
+                def bad(why): raise Unsupported("member `%s` is not a forwarder (%s)" % (sig[:90], why))
+                if nm in ("operator==", "operator!=") and ps and "poly_p<" in ps[0]["type"]["qualType"]:
+                    # identity shortcut, then the comparison of *this with the other payload
+                    if len(b) != 2 or b[0].get("kind") != "IfStmt" or b[1].get("kind") != "ReturnStmt": bad("body")
+                    e = strip(b[1]["inner"][0])
+                    if not (e.get("kind") == "CXXOperatorCallExpr" and e["inner"][0].get("name") == nm and is_pobj(e["inner"][2], of=ps[0]["id"])): bad("final comparison")
+                    l = strip(e["inner"][1])
+                    if not (l.get("kind") in ("CXXOperatorCallExpr", "UnaryOperator") and any(q.get("kind") == "CXXThisExpr" for q in walk(l))): bad("left operand is not *this")
+                    rt = strip(b[0]["inner"][1]); rt = strip(rt["inner"][0]) if rt.get("kind") == "CompoundStmt" else rt
+                    if not (rt.get("kind") == "ReturnStmt" and strip(rt["inner"][0]).get("kind") == "CXXBoolLiteralExpr" and strip(rt["inner"][0]).get("value") == (nm == "operator==")): bad("shortcut value")
+                    names.append(nm + "(poly_p)"); continue
+                if len(b) != 1: bad("more than one statement")
+                e = strip(b[0]["inner"][0]) if b[0].get("kind") == "ReturnStmt" else strip(b[0])
+                if nm in ("operator+", "operator-", "operator*", "operator==", "operator!="):
+                    if not (e.get("kind") == "CXXOperatorCallExpr" and len(e["inner"]) == 3 and e["inner"][0].get("name") == nm and len(ps) == 1): bad("not `poly_obj() %s ...`" % nm[8:])
+                    if not is_pobj(e["inner"][1]): bad("left operand is not poly_obj()")
+                    if not (is_pobj(e["inner"][2], of=ps[0]["id"]) or is_param(e["inner"][2], ps[0]["id"])): bad("right operand")
+                elif nm == "operator()":
+                    if not (e.get("kind") == "CallExpr" and is_pobj(e["inner"][0]) and len(e["inner"]) == 1 + len(ps) and all(is_param(a, p_["id"]) for a, p_ in zip(e["inner"][1:], ps))): bad("not poly_obj()(cm, i)")
+                elif m.get("storageClass") == "static":
+                    if not (e.get("kind") == "CallExpr" and e["inner"][0].get("kind") in ("DependentScopeDeclRefExpr", "DeclRefExpr") and text(e["inner"][0]).replace(" ", "") == "poly_type::" + nm and
+                            len(e["inner"]) == 1 + len(ps) and all(is_param(a, p_["id"]) for a, p_ in zip(e["inner"][1:], ps))): bad("not poly_type::%s(...)" % nm)
+                elif nm == "serialize":
+                    if not (e.get("kind") == "CallExpr" and len(ps) == 1 and is_param(e["inner"][0], ps[0]["id"]) and len(e["inner"]) == 2 and is_pobj(e["inner"][1])): bad("not archive(poly_obj())")
+                elif nm == "load":
+                    c0 = e["inner"][0] if e.get("kind") == "CallExpr" else {}
+                    a = strip(e["inner"][1]) if e.get("kind") == "CallExpr" and len(e["inner"]) == 2 else {}
+                    inner = strip(a["inner"][1]) if a.get("kind") in ("CXXOperatorCallExpr", "UnaryOperator") and len(a.get("inner", [])) >= 2 else (strip(a["inner"][0]) if a.get("kind") == "UnaryOperator" else {})
+                    if not (c0.get("member") == "load" and inner.get("kind") == "CallExpr" and any(q.get("kind") == "CXXThisExpr" for q in walk(inner["inner"][0])) and
+                            len(inner["inner"]) == 1 + len(ps) and all(is_param(x, p_["id"]) for x, p_ in zip(inner["inner"][1:], ps))): bad("not M::load(&(*this)(cm, i))")
+                else:
+                    if not (e.get("kind") == "CallExpr" and e["inner"][0].get("kind") in ("CXXDependentScopeMemberExpr", "MemberExpr") and (e["inner"][0].get("member") == nm or e["inner"][0].get("name") == nm) and
+                            is_pobj(e["inner"][0]["inner"][0])): bad("not poly_obj().%s(...)" % nm)
+                    if not (len(e["inner"]) == 1 + len(ps) and all(is_param(a, p_["id"]) for a, p_ in zip(e["inner"][1:], ps))): bad("arguments are not the parameters in order")
+                names.append(nm)
+            if len(names) < 30: raise Unsupported("only %d forwarding members found" % len(names))
+            return "Definition gen_pp_forwarders : list string := (%s)%%string." % " :: ".join('"%s"' % x for x in names + ["nil"]).replace('"nil"', "nil")
+        emit("gen_pp_forwarders", "every member of the class template other than the special members above, poly_obj, detach, make_pointer and the assignments: one statement forwarding to the same-named operation of poly_obj() (static members: of poly_type) with the member's own parameters in order", forwarders)
         def dtor():
             ds = [c for c in members if c.get("kind") == "CXXDestructorDecl"]
             if any(body_of(d) for d in ds): raise Unsupported("user-written destructor")
@@ -225,7 +304,7 @@ def main():
         emit("gen_pp_destroy", "the implicit destructor: the member _p is destroyed", dtor)
     txt = ["(* GENERATED by tools/cxxpolyp2coq.py from include/nfl/poly_p.hpp -- do not edit.  The special members of the copy-on-write handle poly_p over the",
            "   shared_ptr operations of ShSem.v; s is the handle/cell state of PolyP.v, h the handle (object) the member is called on, g the argument. *)",
-           "From Coq Require Import Arith Bool.", "From NTT Require Import PolyP ShSem.", ""] + [o + "\n" for o in out] + ["(* index: " + "; ".join(index) + " *)"]
+           "From Coq Require Import Arith Bool String List.", "From NTT Require Import PolyP ShSem.", ""] + [o + "\n" for o in out] + ["(* index: " + "; ".join(index) + " *)"]
     open(OUT, "w").write("\n".join(txt) + "\n")
     for i in index: print(i)
 
